@@ -5,6 +5,8 @@ import (
 	"go/token"
 	"go/types"
 	"math/big"
+	"sort"
+	"strings"
 
 	"golang.org/x/tools/go/ssa"
 )
@@ -51,12 +53,13 @@ type State struct {
 	entry   HeapView // heap at function entry
 	entryWM *Term
 	ghost   map[string]SV
+	havocked bool // a havoccall happened on this path: the frame is not checked (the contract must say "modifies everything")
 }
 
 func (st *State) top() *Frame { return st.frames[len(st.frames)-1] }
 
 func (st *State) clone() *State {
-	n := &State{wm: st.wm, entry: st.entry, entryWM: st.entryWM}
+	n := &State{wm: st.wm, entry: st.entry, entryWM: st.entryWM, havocked: st.havocked}
 	n.heap = make(HeapView, len(st.heap))
 	for k, v := range st.heap {
 		n.heap[k] = v
@@ -136,6 +139,7 @@ type Exec struct {
 	pruned           int
 	qn               int
 	lastLocalMods    []*Loc
+	pendingInv       []*Term // assumed field ranges of values read while evaluating a contract expression
 }
 
 type unsupported struct{ msg string }
@@ -149,6 +153,10 @@ func (x *Exec) freshName(hint string) string {
 	return fmt.Sprintf("%s!%d", hint, x.fresh)
 }
 
+// epochKey marks a heap view all of whose unmentioned keys were havocked (by a call abstracted
+// with havoccall): such keys read as "H<epoch>.<key>" instead of the entry heap "H0.<key>".
+const epochKey = "$epoch"
+
 func (x *Exec) heapGet(h HeapView, key string, s Sort) *Term {
 	if t, ok := h[key]; ok {
 		return t
@@ -157,7 +165,40 @@ func (x *Exec) heapGet(h HeapView, key string, s Sort) *Term {
 		x.keySort = map[string]Sort{}
 	}
 	x.keySort[key] = s
+	if e, ok := h[epochKey]; ok && key != "S:byte" {
+		return Var("H"+e.Name+"."+key, s)
+	}
 	return Var("H0."+key, s)
+}
+
+// havocAll: anything may have happened to the heap (strings are immutable and stay).
+func (x *Exec) havocAll(st *State, keepTypes ...string) {
+	keep, hasS := st.heap["S:byte"]
+	kept := HeapView{}
+	for _, tn := range keepTypes {
+		prefix := "F:" + x.fn.Pkg.Pkg.Name() + "." + tn + "."
+		keyMu.Lock()
+		var ks []string
+		for k := range x.prog.keySorts {
+			if strings.HasPrefix(k, prefix) {
+				ks = append(ks, k)
+			}
+		}
+		keyMu.Unlock()
+		sort.Strings(ks)
+		for _, k := range ks {
+			kept[k] = x.heapGet(st.heap, k, x.sortOfKey(k))
+		}
+	}
+	st.heap = kept
+	if hasS {
+		st.heap["S:byte"] = keep
+	}
+	st.heap[epochKey] = Var(x.freshName("e"), SInt)
+	nw := Var(x.freshName("WM"), SInt)
+	st.assume(Le(st.wm, nw))
+	st.wm = nw
+	st.havocked = true
 }
 
 func (x *Exec) registerKey(key string, s Sort) {
@@ -425,6 +466,18 @@ func (x *Exec) loadFrom(st *State, h HeapView, l *Loc, addAssumes bool) SV {
 	if addAssumes {
 		x.assumeTypeInv(st, sv)
 	}
+	if fr := x.prog.contracts.FieldRanges; len(fr) > 0 {
+		for i, k := range keys {
+			if r, ok := fr[k]; ok {
+				a := And(Le(IntC(r[0]), ts[i]), Le(ts[i], IntC(r[1])))
+				if st != nil {
+					st.assume(a)
+				} else {
+					x.pendingInv = append(x.pendingInv, a)
+				}
+			}
+		}
+	}
 	return sv
 }
 
@@ -498,6 +551,10 @@ func (x *Exec) loadGlobal(st *State, l *Loc) SV {
 			return SV{K: KFunc, T: v, Ty: t}
 		}
 		sv := refSV(v, t)
+		if g.Pkg.Pkg.Path() == "io" && g.Name() == "EOF" {
+			// assumed fact about the dependency: io.EOF is a non-nil error value
+			st.assume(Ne(v, IntC(0)))
+		}
 		return sv
 	case KSeq:
 		s := SV{K: KSeq, Ty: t, Id: App(name+"#id", SInt), Off: App(name+"#off", SInt), Len: App(name+"#len", SInt), Cap: App(name+"#cap", SInt)}
